@@ -327,7 +327,21 @@ def handleCall (j : Json) : Except String Json := do
   let initDoms : Array Bounds.RL := fields.map fun f => match f.enums with
     | some es => Bounds.initEnum es
     | none => Bounds.initScalar f.ty.w f.ty.s
-  let bst0 := Bounds.process (envΓ fields) (envρ (fields.map (·.val))) initDoms (tops.map btopOf)
+  -- `IsNonRandExprVisitor` decides a reference through a list subscript by the *list*: an element field of a list that is
+  -- random in the call counts as random here, whatever the field's own declaration
+  let viaUsedList : List String → Bool := fun (path : List String) =>
+    match path.findIdx? (fun c => c.endsWith "]") with
+    | some k =>
+        let lp := path.take k
+        (match (inst.objs.toList.zipIdx).find? (fun (o : ObjInfo × Nat) => o.1.path == lp) with
+         | some o => (match usedO.find? (fun q => q.1 == o.2) with | some q => q.2 | none => false)
+         | none => false)
+    | none => false
+  let fields0 : Array Field := (fields.toList.zip inst.scalars.toList).toArray.map fun (fs : Field × ScalarInfo) =>
+    match viaUsedList fs.2.path with
+    | true => ({ fs.1 with ty := { fs.1.ty with rand := true } } : Field)
+    | false => fs.1
+  let bst0 := Bounds.process (envΓ fields0) (envρ (fields.map (·.val))) initDoms (tops.map btopOf)
   for p in usedS do
     if forced p.1 && p.2 then
       match inst.scalars[p.1]? with
